@@ -9,9 +9,13 @@
       AddMachine   -> [do_add]       one atomic step (after D15)
       RemMachine   -> [do_rem]       one atomic step (after D15)
       GetCrewOp.Do -> [RGet]         one atomic step (Crew.Copy under RLock)
-      Storage.WriteState -> [write_states] / [mset] / [mdel] on [sto]: one bolt
-                      transaction, all or nothing, fails iff the store is down
-                      (or the batch cannot be serialised: [RAdd … bad])
+      Storage.WriteState -> [write_states] / [mset] / [mdel] on [sto]: every
+                      record of the batch is serialised first, then one bolt
+                      transaction writes them: all or nothing, whatever the
+                      size of the batch; fails iff the store is down or some
+                      record of the batch cannot be serialised ([RAdd … bad];
+                      for Process: an end state that holds a NaN,
+                      [all_serialisable])
 
     The shared state is the in-memory crew [mem], the persistent records
     [sto] and whether the store is up.  [RFault u] is the environment taking
@@ -120,6 +124,31 @@ Definition changes (ws : list (string * wobs)) : list (string * (string * bindin
   flat_map (fun mw : string * wobs =>
               match wo_to (snd mw) with Some t => [(fst mw, t)] | None => [] end) ws.
 
+(** Values that encoding/json refuses.  The model's [json] has no such value
+    (a [JNum] is a finite float64); the one that the correspondence runs feed
+    to the service - a float64 NaN inside a message, which a machine of
+    specification "nan" binds and so carries into its end state - is
+    represented by the marker string below (the harness prints a NaN as this
+    marker and never submits the marker as a genuine string).  Bindings are
+    serialisable when no value inside them is the marker. *)
+Definition nan_text : string := "<NaN>".
+Definition nan_marker : json := JStr nan_text.
+
+Fixpoint json_serialisable (j : json) : bool :=
+  match j with
+  | JStr s => negb (String.eqb s nan_text)
+  | JArr l => forallb json_serialisable l
+  | JObj kvs => forallb (fun kv : string * json => json_serialisable (snd kv)) kvs
+  | _ => true
+  end.
+
+Definition bs_serialisable (bs : bindings) : bool :=
+  forallb (fun kv : string * json => json_serialisable (snd kv)) bs.
+
+(** json.Marshal succeeds for every record of the batch *)
+Definition all_serialisable (ch : list (string * (string * bindings))) : bool :=
+  forallb (fun c : string * (string * bindings) => bs_serialisable (snd (snd c))) ch.
+
 (** Storage.WriteState for the batch of end states; Process takes each
     record's SpecSource from the in-memory machine *)
 Definition write_states (m : mmap) (ch : list (string * (string * bindings))) (st : mmap) : mmap :=
@@ -161,7 +190,9 @@ Section Service.
     forallb (fun mid => match mget mid m with Some r => spec_ok (r_spec r) | None => true end) mids.
 
   (** Process once the recipients are chosen: GetSpec for each, walk each,
-      write the batch, write back *)
+      write the batch, write back.  The write of the batch fails as a whole
+      - nothing stored, memory untouched - when the store is down or when one
+      end state of the batch cannot be serialised. *)
   Definition do_process_to (mids : list string) (msg : json) (s : svc) : svc * resp :=
     if specs_ok (mem s) mids then
       let ws := walks (mem s) mids msg in
@@ -169,7 +200,7 @@ Section Service.
       match ch with
       | [] => (s, PProcessed false ws)              (* WriteState of an empty batch: nil *)
       | _ :: _ =>
-          if up s
+          if up s && all_serialisable ch
           then (mk_svc (set_states ch (mem s)) (write_states (mem s) ch (sto s)) (up s),
                 PProcessed false ws)
           else (s, PProcessed true ws)              (* warning logged, memory untouched *)
@@ -275,7 +306,8 @@ End Service.
 (** ======================================================================
     Concrete machines: three hand-written specifications whose one action
     appends the id of the received message to the binding "log" and emits
-    every element of the message's "fwd" list. *)
+    every element of the message's "fwd" list, and one ("nan") without an
+    action that keeps what it bound from the message - "poison" included. *)
 
 Inductive mact : Type := MRecord.
 
@@ -314,10 +346,20 @@ Definition spec_deaf : spec mact :=
   mk_spec [("error", plain_node); ("note", act_node "start"); ("start", msg_node pat_wake "note")]
           false "" true.
 
+(** nan: start -(message with id, fwd, poison)-> start, no action: the end
+    state holds the message's "poison" as it came (a NaN stays a NaN: nothing
+    on this path canonicalises the bindings), so it cannot be written when
+    that is a NaN; messages without "poison" do not move the machine *)
+Definition pat_nan : json :=
+  JObj [("fwd", JStr "?fwd"); ("id", JStr "?id"); ("poison", JStr "?p")].
+Definition spec_nan : spec mact :=
+  mk_spec [("error", plain_node); ("start", msg_node pat_nan "start")] false "" true.
+
 Definition mspec_of (name : string) : option (spec mact) :=
   if String.eqb name "rec" then Some spec_rec
   else if String.eqb name "flip" then Some spec_flip
   else if String.eqb name "deaf" then Some spec_deaf
+  else if String.eqb name "nan" then Some spec_nan
   else None.                      (* no such file, or a file that does not compile *)
 
 Definition spec_ok_m (name : string) : bool :=
